@@ -37,6 +37,7 @@ def run(ctx: Ctx) -> Collector:
     _connect_one(ctx, c)
     _connect(ctx, c)
     _async(ctx, c)
+    _writers(ctx, c)
     return c
 
 
@@ -296,3 +297,52 @@ def _async(ctx: Ctx, c: Collector) -> None:
 
 from ..report import VIOLATED, DISCHARGED  # noqa: E402
 from ..terms import call  # noqa: E402
+
+
+# --------------------------------------------------------------------------- who may write the connection tables
+STRUCTURE_TABLES = {
+    # table -> functions that may modify it (the constructor initialises all of them)
+    "successors": (CONNECT_ONE, ASYNC),
+    "successors_to_wait_for": (ASYNC,),
+    "triggers": (CONNECT_ONE,),
+    "pulled_inputs": (CONNECT_ONE,),
+    "output_to_push": (CONNECT_ONE,),
+    "output_request": (CONNECT_ONE,),
+}
+_TABLE_MUTATORS = {"pop", "popitem", "clear", "update", "setdefault", "remove", "discard", "add", "append", "extend", "insert", "sort", "reverse"}
+
+
+def _writers(ctx: Ctx, c: Collector) -> None:
+    """The tables that describe the connections of a simulator are written by connect() only: the wait
+    sets, the trigger notifications and the data-flow are all read off them at run time, so removing or
+    rewriting entries anywhere else (a pruning pass, an optimisation before run()) changes who waits for
+    whom."""
+    init = "mosaik.simmanager.SimRunner.__init__"
+    n = 0
+    for fi in analysis_units(ctx.prog):
+        s = summarise(ctx.prog, fi)
+        for e in s.events:
+            tb = how = None
+            if e.kind in ("store", "del"):
+                tgt = unalias(e.term[1], s, fi)
+                tb = _effect_table(tgt) if tgt[0] in ("idx", "attr") else None
+                if tgt[0] == "attr" and tgt[2] in STRUCTURE_TABLES:
+                    how = "replaced as a whole"
+                elif tb is not None:
+                    how = "an entry is deleted" if e.kind == "del" else "an entry is written"
+            elif e.kind == "call" and e.term[1][0] == "attr" and e.term[1][2] in _TABLE_MUTATORS:
+                recv = unalias(e.term[1][1], s, fi)
+                tb = _effect_table(recv)
+                how = f".{e.term[1][2]}()"
+            if tb not in STRUCTURE_TABLES or how is None:
+                continue
+            n += 1
+            if fi.qualname == init or fi.qualname in STRUCTURE_TABLES[tb]:
+                continue
+            c.bad("writers", fi.qualname, f"{tb}: {how}", f"the connection table `{tb}` is modified outside connect ({', '.join(x.rsplit('.', 1)[-1] for x in STRUCTURE_TABLES[tb])}): "
+                  "wait sets, trigger notifications and data-flow are read off this table at run time", ctx.loc(fi, e))
+    c.info["structure_table_writes"] = n
+    if n < 6:
+        raise AnalysisError(f"R20/writers: only {n} writes to the connection tables found (7 confirmed by hand)")
+    if not any(o.oid == "R20/writers" for o in c.obs):
+        c.ok("writers", "mosaik.*", "connection tables are written by connect only", f"{n} writes, all in connect_one / connect_async_requests / SimRunner.__init__", "")
